@@ -51,7 +51,7 @@ BIG_SCRIPTS = ['pass'] * 14 + ['fail', 'error', 'skip_body', 'skip_dec', 'xfail'
                                'body+teardown', 'setup_err', 'fail@1', 'sub_skip']
 
 
-def big_spec(nlayers=12, ntests=40, nie=None, chain=3):
+def big_spec(nlayers=12, ntests=40, nie=None, chain=3, scripts=None, bad_at=None):
     """A world that is not small: nlayers layers (the first `chain` ones
     derive from each other, the rest are independent) with ntests tests each
     and 30 unit tests; every outcome kind occurs many times, placed by a fixed
@@ -64,12 +64,15 @@ def big_spec(nlayers=12, ntests=40, nie=None, chain=3):
             L['f'] = {'tearDown': 'NIE'}
         layers.append(L)
     tests = []
+    sl = scripts or BIG_SCRIPTS
     for i in range(30):
-        tests.append({'n': 'u%03d' % i, 'l': None, 's': BIG_SCRIPTS[(i * 11) % len(BIG_SCRIPTS)]})
+        tests.append({'n': 'u%03d' % i, 'l': None, 's': sl[(i * 11) % len(sl)]})
     for li in range(nlayers):
         for i in range(ntests):
             tests.append({'n': 't%02d_%03d' % (li, i), 'l': 'L%02d' % li,
-                          's': BIG_SCRIPTS[(i * 7 + li * 3) % len(BIG_SCRIPTS)]})
+                          's': sl[(i * 7 + li * 3) % len(sl)]})
+    if bad_at is not None:
+        tests[bad_at]['s'] = 'fail'
     return {'layers': layers, 'tests': tests}
 
 
